@@ -141,6 +141,9 @@ InitHistWith(G) ==
     /\ CIdle
 
 InitHist == \E G \in Graphs : InitHistWith(G)
+(* checking configurations hide the operation counter (breadth-first search reaches every state *)
+(* first with its smallest counter)                                                            *)
+HistView  == <<g, eff, FILTERS, cache, ret>>
 SpecHist == InitHist /\ [][NextHist]_vars
 
 (* every look-up returns the union of what was registered so far *)
